@@ -14,7 +14,12 @@ RULE = ("exhaustive product: entry point (Output / SectionOutput / IO std+err / 
         "stream at width 10 (forced ANSI / ANSI stream / plain), the newer one optionally written to first, then both given quiet x "
         "verbosity, then newer.write|write_line|overwrite|clear|clear(1) with every flags value (refused or not), then the older one "
         "re-opened and older.write|write_line|overwrite|clear; the model (Model/GatedSection.v) computes the bytes of each of the "
-        "two phases, every section's content and row count and the screen; compared with the implementation byte for byte")
+        "two phases, every section's content and row count and the screen; compared with the implementation byte for byte.  Random "
+        "gated sequences (4000 quick / 40000 thorough): 1-3 sections, 3-14 calls out of flagged write / write_line of marked texts "
+        "(plain, wrapped, tagged, two lines, empty), overwrite, clear / clear(1) / clear(2), indent, set_quiet, set_verbosity; the "
+        "stream is observed after every call and compared call by call; the oracle decides allowed / refused from quiet, verbosity "
+        "and flags alone and asks: no byte from a refused call, no mark of a refused text anywhere in the stream, and (decorated, no "
+        "refused clear / overwrite) screen = stacked contents; non-trivial = at least one refused call")
 THEOREMS = ["gate_level", "gate_iff", "gate_monotone", "quiet_silent", "refused_call_is_invisible",
             "code_is_ideal_unless_clear_refused", "refused_text_never_appears", "gated_run_is_section_run",
             "refused_arguments_do_not_matter", "gated_screen_is_stack", "groups_are_one_run"]
@@ -70,9 +75,15 @@ def gen(rng, tier, info):
                         for m2 in ("write", "write_line", "overwrite", "clear"):
                             cases.append({"later": 1, "pre": 1, "fmt": fmt, "q": q, "v": v, "f": f, "m1": m1, "m2": m2})
                             n_later += 1
+    # random gated sequences: 1-3 sections created on the way, flagged writes of marked texts (plain, wrapped, tagged, two
+    # lines, empty), overwrite, clear / clear(1) / clear(2), indent, set_quiet, set_verbosity; the stream is looked at after
+    # EVERY call
+    nseq = {"quick": 4000, "thorough": 40000, "search": 1000}[tier]
+    for _ in range(nseq):
+        cases.append({"later": 1, "fmt": rng.choice((0, 0, 4, 2)), "ops": seq_ops(rng)})
     info["exhaustive"] = True
     info["distribution"] = {"entry_points": len(ENTRY), "formatters": FMTS, "flags": len(FLAGS), "cases": len(cases),
-                            "two_section_sequences": n_later}
+                            "two_section_sequences": n_later, "random_gated_sequences": nseq}
     return cases
 
 
@@ -106,9 +117,60 @@ def w_style(st):
 T_OLDER, T_FIRST, T_MARK, T_LATER = "older content", "<info>first</info>", "MARK-REFUSED", "later <b>text</b>"
 
 
+SEQ_TEXTS = ["a", "b" * 6, "c" * 11, "<info>in</info>fo", "x\ny", "", "<b>" + "w" * 9 + "</b>", "<comment>k</comment>\n\nz"]
+
+
+def seq_ops(rng):
+    ops, n, k = [[0]], 1, 0
+    for _ in range(rng.randint(3, 14)):
+        r = rng.random()
+        i = rng.randrange(n)
+        if r < 0.08 and n < 3:
+            ops.append([0])
+            n += 1
+        elif r < 0.50:
+            k += 1
+            # every written text starts with its own mark: a refused one can be looked for in the whole stream
+            ops.append([1, i, "#%02d" % k + rng.choice(SEQ_TEXTS), rng.choice(FLAGS), rng.randint(0, 1)])
+        elif r < 0.60:
+            k += 1
+            ops.append([2, i, "#%02d" % k + rng.choice(SEQ_TEXTS)])
+        elif r < 0.72:
+            ops.append([3, i, rng.choice((None, None, 1, 2))])
+        elif r < 0.77:
+            ops.append([4, i, rng.choice((0, 2, 3))])
+        elif r < 0.88:
+            ops.append([5, i, rng.randint(0, 1)])
+        else:
+            ops.append([6, i, rng.choice(VERBS)])
+    return ops
+
+
+def seq_walk(case):
+    """per call: (allowed?, refused clear/overwrite?) - from quiet / verbosity / flags alone, independent of the model"""
+    gates, out = [], []
+    for o in case["ops"]:
+        ok, clr = True, False
+        if o[0] == 0:
+            gates.append([0, 0])
+        elif o[0] in (1, 2, 3):
+            q, v = gates[o[1]]
+            ok = (not q) and v >= lowest(o[3] if o[0] == 1 else None)
+            clr = o[0] in (2, 3) and not ok
+        elif o[0] == 5:
+            gates[o[1]][0] = o[2]
+        elif o[0] == 6:
+            gates[o[1]][1] = o[2]
+        out.append((ok, clr))
+    return out
+
+
 def later_groups(case):
     """the calls of a two-section sequence, in two groups (the stream is looked at after each).  One description for both sides:
-    [0] section(); [1,i,text,flags,nl] write/write_line; [2,i,text] overwrite; [3,i,n] clear; [5,i,q] set_quiet; [6,i,v] set_verbosity"""
+    [0] section(); [1,i,text,flags,nl] write/write_line; [2,i,text] overwrite; [3,i,n] clear; [4,i,n] indent; [5,i,q] set_quiet;
+    [6,i,v] set_verbosity"""
+    if "ops" in case:
+        return [[o] for o in case["ops"]], None
     q, v, m1, m2 = case["q"], case["v"], case["m1"], case["m2"]
     g1 = [[0], [0], [1, 0, T_OLDER, None, 1]]
     if case.get("pre"):
@@ -160,6 +222,19 @@ def wire(case):
 
 
 def describe(case):
+    if "ops" in case:
+        def d(o):
+            if o[0] == 0:
+                return "section()"
+            if o[0] == 1:
+                return "s%d.%s(%r%s)" % (o[1], "write_line" if o[4] else "write", o[2], "" if o[3] is None else ", %d" % o[3])
+            if o[0] == 2:
+                return "s%d.overwrite(%r)" % (o[1], o[2])
+            if o[0] == 3:
+                return "s%d.clear(%s)" % (o[1], "" if o[2] is None else o[2])
+            return "s%d.%s(%d)" % (o[1], {4: "indent", 5: "set_quiet", 6: "set_verbosity"}[o[0]], o[2])
+        fn = ["AnsiFormatter(forced)", "", "PlainFormatter", "", "AnsiFormatter on ANSI stream"][case["fmt"]]
+        return "sections on one output (%s, width %d): " % (fn, W) + "; ".join(d(o) for o in case["ops"])
     if "later" in case:
         fn = ["AnsiFormatter(forced)", "AnsiFormatter on plain stream", "PlainFormatter", "NullFormatter", "AnsiFormatter on ANSI stream"][case["fmt"]]
         return ("two sections on one output (%s, width %d)%s, quiet=%s verbosity=%s: newer.%s(%s), then older.%s(...) with everything "
@@ -289,6 +364,8 @@ def _later(case):
                 secs[o[1]].overwrite(o[2])
             elif o[0] == 3:
                 secs[o[1]].clear() if o[2] is None else secs[o[1]].clear(o[2])
+            elif o[0] == 4:
+                secs[o[1]].indent(o[2])
             elif o[0] == 5:
                 secs[o[1]].set_quiet(bool(o[2]))
             else:
@@ -298,7 +375,7 @@ def _later(case):
         done = len(data)
     state = [[[S(l) for l in s.content.split("\n")[:-1]] if s.content else [], s.lines, s._indent, 1 if s.is_quiet() else 0,
               s.verbosity] for s in secs]
-    return [seen[0], seen[1], f, state]
+    return [seen, f, state]
 
 
 def run_impl(case):
@@ -346,7 +423,11 @@ def canon_model(case, obs):
 def canon_impl(case, obs):
     if "later" in case:
         if obs and obs[0] == "LATER":
-            _, mid, after, _f, state = obs
+            _, seen, _f, state = obs
+            if "ops" in case:
+                leakfree = not (is_ansi(case) and any(clr for _, clr in seq_walk(case)))
+                return [0, [termemu.tokens(x) for x in seen], state, _screen(seen), 1 if leakfree else 0]
+            mid, after = seen
             # the class of refused_text_never_appears / gated_screen_is_stack (Model/GatedSection.v leakfree), decided here
             # from the case alone: no clear / overwrite of a decorated section is refused
             leakfree = not (is_ansi(case) and case["q"] and case["m1"] in ("overwrite", "clear", "clear1"))
@@ -372,11 +453,56 @@ def lowest(f):
     return 0
 
 
+def screen_vs_stack(seen, state):
+    """decorated: the screen is the stack of the recorded contents (Props/C10.v gated_screen_is_stack), the row counts are theirs"""
+    from props.C15 import visible
+    stack = []
+    for cs, lines, _ind, _q, _v in state:
+        rows = []
+        for l in cs:
+            vis, _ = visible(unS(l))
+            rows += termemu.wrap_rows(vis, W)
+        if lines != len(rows):
+            return "row-count-disagrees-with-content"
+        stack += rows
+    screen, r, col = _screen(seen)
+    if [unS(x) for x in screen] != stack + [""] or r != len(stack) or col != 0:
+        return "screen-differs-from-stacked-contents"
+    return None
+
+
+def oracle_seq(case, seen, state):
+    walk = seq_walk(case)
+    whole = "".join(seen)
+    for o, (ok, clr), data in zip(case["ops"], walk, seen):
+        name = {0: "section", 1: "write", 2: "overwrite", 3: "clear", 4: "indent", 5: "set_quiet", 6: "set_verbosity"}[o[0]]
+        if not ok and data:
+            return "bytes-despite-gate:SectionOutput.%s" % name
+        if o[0] in (1, 2):
+            if not ok and o[2][:3] in whole:
+                return "refused-text-appears-later:SectionOutput.%s" % name
+            if ok and o[2][:3] not in data:
+                return "gate:SectionOutput.%s" % name
+        elif o[0] not in (3,) and data:
+            return "emits-without-path"
+    if not is_ansi(case):
+        return None
+    if any(clr for _, clr in walk) and CLEAR_LEAK_KNOWN:
+        return None            # a refused clear / overwrite of a decorated section: the finding
+    bad = screen_vs_stack(seen, state)
+    if bad == "screen-differs-from-stacked-contents" and not all(ok for ok, _ in walk):
+        return "refused-call-leaves-a-trace"
+    return bad
+
+
 def oracle(case, obs):
     if "later" in case:
         if obs[0] == "EXC":
             return "exception:" + obs[1]
-        _, mid, after, f, state = obs
+        _, seen, f, state = obs
+        if "ops" in case:
+            return oracle_seq(case, seen, state)
+        mid, after = seen
         m1 = case["m1"]
         exp = (not case["q"]) and case["v"] >= lowest(f)
         if not exp and ("MARK-REFUSED" in mid or "MARK-REFUSED" in after):
@@ -390,20 +516,10 @@ def oracle(case, obs):
         leak = case["q"] and case.get("pre") and m1 in ("overwrite", "clear", "clear1")
         if leak and CLEAR_LEAK_KNOWN:
             return None
-        from props.C15 import visible
-        stack = []
-        for cs, lines, _ind, _q, _v in state:
-            rows = []
-            for l in cs:
-                vis, _ = visible(unS(l))
-                rows += termemu.wrap_rows(vis, W)
-            if lines != len(rows):
-                return "row-count-disagrees-with-content"
-            stack += rows
-        screen, r, col = _screen([mid, after])
-        if [unS(x) for x in screen] != stack + [""] or r != len(stack) or col != 0:
-            return ("refused-call-leaves-a-trace:SectionOutput.%s" % m1) if not exp else "screen-differs-from-stacked-contents"
-        return None
+        bad = screen_vs_stack(seen, state)
+        if bad == "screen-differs-from-stacked-contents" and not exp:
+            return "refused-call-leaves-a-trace:SectionOutput.%s" % m1
+        return bad
     if "reflect" in case:
         unknown = [x for x in obs[1] if x not in KNOWN]
         if unknown:
@@ -427,6 +543,8 @@ def oracle(case, obs):
 
 
 def nontrivial_key(case, obs):
+    if "ops" in case:
+        return ["seq", case["fmt"], case["ops"]] if not all(ok for ok, _ in seq_walk(case)) else None
     if "later" in case:
         if case["f"] not in (None, 0) or case.get("pre"):
             return ["later", case.get("pre", 0)] + [case[k] for k in ("fmt", "q", "v", "f", "m1", "m2")]
@@ -434,3 +552,11 @@ def nontrivial_key(case, obs):
     if "t" in case and obs and obs[0] == 1 and case["f"] not in (None, 0):
         return [case[k] for k in ("t", "ion", "m", "fmt", "q", "v", "f", "via")]
     return None
+
+
+def shrink(case):
+    if "ops" in case:
+        ops = case["ops"]
+        for i in range(1, len(ops)):
+            if ops[i][0] != 0:
+                yield {"later": 1, "fmt": case["fmt"], "ops": ops[:i] + ops[i + 1:]}
